@@ -27,8 +27,11 @@ CHECKS = {
                      "TLC-generated API histories (exhaustive up to length 3, random walks of length 9, from SolverAPI.tla) is replayed on the real "
                      "objects and compared with a fresh object (the property's own oracle, plain and ASan/UBSan builds), and the private state logged "
                      "after every call is validated as a behaviour of the models by TLC; every MoveToFront transition is replayed on the template.",
-                note="trusted: the abstraction (ghost tags instead of numbers), sanitizers; Adj facade and LocalNetwork object are not yet modelled "
-                     "(network level is covered relationally by other properties)", ref="8/C04"),
+                note="trusted: the abstraction (ghost tags instead of numbers), sanitizers. Network objects: LocalNetModel.tla gives the flag "
+                     "transition of every public operation of LocalNetwork (queries, update_*, set_algorithm, m0 type, confidence, a priori m0, "
+                     "remove_huge_abs_terms, refine_adjustment); histories up to length 4 (5) over three networks are replayed by "
+                     "harness/drv_localnet, every answer is compared with a fresh object given the same configuration and content, and the flags "
+                     "logged through VerifProbe are validated by TraceLocalNet.tla", ref="8/C04"),
     "C11": dict(cat="model_checking", technique="TLC model checking of grammar x parser-automaton product + replay of all emitted documents under ASan/UBSan + mutation sweep",
                 text="(1) GkfModel.tla: product of the documented element grammar and a transcription of GKFparser's (state, tag) automaton, model "
                      "checked by TLC (Inclusion, ErrorHasLine, StopOnlyAtEnd, Completeness, Exactness up to named deviations, ErrorAbsorbing); every "
